@@ -569,5 +569,13 @@ func C17(r *eng.Run) {
 		}
 	})
 	r.Phase("near-midpoint roots", t0, nil)
+
+	// R: values reached by operation sequences
+	reachedPhase(r, "R values reached by operation sequences", reachedAll(r), func(w *eng.W, b ref.Bits, v ref.Val) {
+		if !v.Neg || v.C.Sign() == 0 {
+			checkRoot(w, b, 2)
+		}
+		checkRoot(w, b, 3)
+	})
 	r.Require("Sqrt/perfect-power", "Cbrt/perfect-power", "Sqrt/exp-mod2=0", "Sqrt/exp-mod2=1", "Cbrt/exp-mod3=0", "Cbrt/exp-mod3=1", "Cbrt/exp-mod3=2", "Sqrt/negative", "Sqrt/zero", "Cbrt/inf", "Sqrt/near-midpoint", "Cbrt/near-midpoint", "Sqrt/near-midpoint-hensel")
 }
